@@ -449,6 +449,12 @@ class Representation:
 
         return wrapped_matrices
 
+    def _join_words(self, word1, word2):
+        # concatenate two words in the format parse_word understands
+        if self.parse_simple or word1 == "" or word2 == "":
+            return word1 + word2
+        return word1 + "*" + word2
+
     def _automaton_accepted(self, automaton, length,
                             state=None, as_start=True, maxlen=True,
                             precomputed=None, with_words=False,
@@ -500,9 +506,11 @@ class Representation:
                 if with_words:
                     matrices, words = result
                     if as_start:
-                        words = [label + word for word in words]
+                        words = [self._join_words(label, word)
+                                 for word in words]
                     else:
-                        words = [word + label for word in words]
+                        words = [self._join_words(word, label)
+                                 for word in words]
                     accepted_words += words
                 else:
                     matrices = result
